@@ -51,7 +51,11 @@ prop("C07", True,
      "Not decided: total memory as a multiple of input length beyond 'no allocation sized by an unchecked count' (encoding/json's own allocations, recursion depth); the re-encode/decode fixpoint. Trusted: encoding/binary, encoding/json, encoding/hex do not panic on the values passed. Reachability: static calls + function values resolved by signature within the package; interface method calls into the standard library are not followed.",
      None)
 prop("C08", False, "", "", "", NOT_YET)
-prop("C09", False, "", "", "", NOT_YET)
+prop("C09", True,
+     "table agreement between Go composite literals (constants folded by go/types) and the bundled proj4js 2.3.12 sources read by a small JS-subset reader; typed-constant rule for integer division in float context; angle-unit type system (degree/radian) evaluated by path-sensitive AST dataflow against proj4js' own params table; call-order rule for the datum shifts",
+     "(R1, complete for this clause) all 43 ellipsoids, 16 datums, 13 prime meridians, 2 units and 14 named numeric constants equal the bundled proj4js source as float64 (same key sets, towgs84 element-wise); (R2) no integer-constant quotient is used as a float coefficient; (R3) every PROJ.4 key that proj4js multiplies by D2R is multiplied by deg2rad exactly once on every path of its case and no linear/scale key is; (R4) no 2-D Transformer hop between two datum shifts.",
+     "Not decided: numerical agreement of every projection formula with proj4js and with Snyder/Karney references (0.1 mm / 5 mm) — cross-language formula comparison was rejected as brittle; R5 (dimensional homogeneity) is not armed. One open known finding (R4: height dropped in the WGS84 hop, 0.93 mm).",
+     None)
 prop("C10", True,
      "path-sensitive error-before-use dataflow, affine index-map analysis of the copy loops, shape checks on the type-checked AST; SSA effect analysis of the transformer closures",
      "Geometry side: (R3) in all eight Transform methods a member result returned with an error is never asserted/indexed/returned-with-nil before the error is tested; (R4) nil transformer returns the receiver, otherwise a fresh value of the receiver's shape filled by out[i]=t(in[i]) over the full range with X/Y passed and stored in order, the receiver never written, *Bounds becomes the 4-corner ring in ring order. Projection side (R1/R2) see level_note.",
